@@ -262,6 +262,11 @@ class ParametricTransform:
             raise TypeError(
                 f"{type(self).__name__}.link() 'other' must be of the same type, got {type(other).__name__}"
             )
+        if "params" in self._parameters:
+            # An optimizable parameter cannot be replaced by a module reference. The container of parameters
+            # is shared with shallow copies (cf. __copy__), hence remove the entry from a copy of it.
+            self._parameters = self._parameters.copy()
+            del self._parameters["params"]
         self.params = other
         if not hasattr(self, "p"):
             if other.params is None:
